@@ -268,7 +268,9 @@ def build(d, cls):
             row = mask[(0,) * (len(shape) - 1)]
             if np.all(mask == row):
                 mask = np.broadcast_to(row, shape)
-    return cls(arr, mask, drank=len(denom))
+    q = cls(arr, mask, drank=len(denom))
+    _BUILT.append((q, _snap(q)))
+    return q
 
 
 def arr_of(d):
@@ -611,7 +613,30 @@ def angles_of(d, Pm):
     return build(d, Pm.Scalar), arr_of(d), mask_of(d)
 
 
+_BUILT = []          # (object, snapshot) of every operand built for the current case
+
+
+def _snap(q):
+    return (np.asarray(q._values_).tobytes(), np.broadcast_to(np.asarray(q._mask_), q.shape).tobytes(),
+            np.shape(q._mask_))
+
+
 def run_case(c, Pm):
+    """run_case0 + the operands must come out of the operations as they went in (values and masks): a result that
+    is right while an operand was altered disagrees with the reference the next time that operand is used
+    (seeded change C16-F: to_matrix3 OR-ed the zero-quaternion mask into the operand's own mask array)"""
+    del _BUILT[:]
+    prob, det, nontriv = run_case0(c, Pm)
+    if prob is None:
+        for k, (q, before) in enumerate(_BUILT):
+            if _snap(q) != before:
+                prob = 'operand %d (%s) was modified by the operation' % (k, type(q).__name__)
+                break
+    del _BUILT[:]
+    return prob, det, nontriv
+
+
+def run_case0(c, Pm):
     """returns (problem or None, detail dict, nontrivial flag)"""
     fam, op = c['fam'], c['op']
     det = {}
